@@ -200,6 +200,17 @@ func validVarValue(c *gen.Ctx, typ string) *JT {
 	}
 }
 
+// boundary / malformed texts per declared type (what NewValueFromString must refuse
+// or accept without crashing)
+var edgeTexts = map[string][]string{
+	"portion":  {"1/0", "0/0", "0/1", "3/2", "101%", "100.0001%", "1/", "/2", "%", "1 / 2", "1  /2", "1/2%", "007/008", "1/00", "0.%", "12.50%"},
+	"number":   {"null", " 12 ", "1e3", "1.0", "-0", "+3", "007", "", "0x10", "12 13", "\"12\"", "99999999999999999999999999"},
+	"monetary": {"USD -1", "USD  5", "USD 5 ", " USD 5", "USD", "USD +5", "USD 007", "USD 1.5", "A/B 5", "usd 5", "USD/2 18446744073709551617", "USD 1e3", "USD null"},
+	"account":  {"a:", ":a", "a::b", "a b", "", "é", "@world", "-", "a:b:c:d:e:f"},
+	"asset":    {"A/B", "usd", "USD/", "USD/1234567", "ABCDEFGHIJKLMNOPQRS", "USD_X/3", "U$D", "", "USD/2 "},
+	"string":   {"", "null", "\u0000", "a\nb"},
+}
+
 func genVarsIn(c *gen.Ctx) varsIn {
 	r := c.R
 	in := varsIn{API: gen.Pick(r, []string{"v1", "v2"})}
@@ -225,7 +236,9 @@ func genVarsIn(c *gen.Ctx) varsIn {
 	o := &JT{T: "obj"}
 	for _, d := range in.Decl {
 		var v *JT
-		switch k := r.Intn(10); {
+		switch k := r.Intn(12); {
+		case k >= 10:
+			v = Str(gen.Pick(r, edgeTexts[d.Type]))
 		case k < 5:
 			v = validVarValue(c, d.Type)
 		case k < 7:
@@ -279,6 +292,9 @@ func varsCorpus() []varsIn {
 			res = append(res, varsIn{API: api, Decl: []varDecl{{Name: "m", Type: "monetary"}}, Vars: Obj("m", Obj("asset", Str("USD"), "amount", NumLit(n)))})
 		}
 		for _, typ := range varTypes {
+			for _, txt := range edgeTexts[typ] {
+				res = append(res, varsIn{API: api, Decl: []varDecl{{Name: "a", Type: typ}}, Vars: Obj("a", Str(txt))})
+			}
 			for _, v := range []*JT{Null(), Bool(true), IntLit("42"), NumLit(JNum{Int: "1", Frac: "5"}), Arr(), Arr(IntLit("1"), Str("x")), Obj(), Str(""), Str("null")} {
 				res = append(res, varsIn{API: api, Decl: []varDecl{{Name: "a", Type: typ}}, Vars: Obj("a", v)})
 			}
